@@ -127,6 +127,7 @@ func numEntry(lit string) (NumEnt, bool) {
 				e.F64, e.S, e.F32 = f64bits(f), f32bits(float32(f)), f32bits(float32(f))
 				if zero {
 					e.I = canonU(0)
+					e.X64, e.X32 = 1, 1
 				}
 			}
 			return e, true
@@ -136,20 +137,26 @@ func numEntry(lit string) (NumEnt, bool) {
 	if !ok {
 		return NumEnt{}, false
 	}
-	f, _ := r.Float64()
+	f, x64 := r.Float64()
 	if r.Sign() == 0 && neg {
 		f = math.Copysign(0, -1)
 	}
 	if !math.IsInf(f, 0) {
 		e.F64 = f64bits(f)
 		e.S = f32bits(float32(f))
+		if x64 {
+			e.X64 = 1
+		}
 	}
-	g, _ := r.Float32()
+	g, x32 := r.Float32()
 	if r.Sign() == 0 && neg {
 		g = float32(math.Copysign(0, -1))
 	}
 	if !math.IsInf(float64(g), 0) {
 		e.F32 = f32bits(g)
+		if x32 {
+			e.X32 = 1
+		}
 	}
 	if r.IsInt() {
 		if c := canonBig(r.Num()); c != nil {
